@@ -80,10 +80,10 @@ ApplyMutation(d, m) ==
 Form(op, c, side) == [op |-> op, c |-> c, side |-> side]
 Forms == {Form(op, c, s) : op \in FormOps, c \in 1..MaxC, s \in Sides}
 SrcSeqs(kind) ==
-    IF kind \in CprimKinds THEN {<<>>, <<"own">>, <<"cprim">>, <<"desc">>, <<"cprim_anc">>, <<"own", "cprim">>, <<"own", "desc">>, <<"cprim", "cprim_anc">>, <<"desc", "cprim">>}
+    IF kind \in CprimKinds THEN {<<>>, <<"own">>, <<"cprim">>, <<"desc">>, <<"cprim_anc">>, <<"cprim_anc2">>, <<"own", "cprim">>, <<"own", "desc">>, <<"cprim", "cprim_anc">>, <<"desc", "cprim">>}
     ELSE IF kind = "int" THEN {<<>>}
     ELSE {<<>>, <<"own">>, <<"desc">>, <<"own", "desc">>, <<"own", "own">>}
-TgtOf(kind, src) == IF kind = "list_cprim" /\ src \in {"cprim", "cprim_anc"} THEN "item" ELSE "val"
+TgtOf(kind, src) == IF kind = "list_cprim" /\ src \in {"cprim", "cprim_anc", "cprim_anc2"} THEN "item" ELSE "val"
 ScenariosOf(kind, l, p, o) ==
     UNION {{Scenario("len", kind, l, p, o, [q \in 1..Len(ss) |-> Atom(ss[q], TgtOf(kind, ss[q]), f[q].op, f[q].c, f[q].side)], <<>>)
                : f \in [1..Len(ss) -> Forms]}
